@@ -1711,7 +1711,6 @@ def r07_9(prog, rep, rid='R07.9'):
     for f in impls:
         rep.saw(f)
         g = cfg_of(f)
-        fsmap = I.stmt_node_map(g)
         once = _once_bound(f.node, f.params)
         sends = []
         for n in g.nodes:
